@@ -15,6 +15,9 @@ NOTES = {
     'C17-3': 'first missed: identical documents were never diffed in consecutive calls; version chains and a same-arguments clause added',
     'C14-1': 'first caught by correspondence only: the title-diff reader now parses the markup with an HTML parser',
     'C20-2': 'first caught by correspondence only: the observer took the live pool from the application settings, which the change empties',
+    'C06-3': 'first missed: both sides always declared the same charset; identical bytes under different charsets and the same URL on both sides added',
+    'C13-4': 'first missed: the two sides never had the same URL; same-URL cases with every hash class per side added',
+    'C20-4': 'first missed: no scenario had a real HTTP request in flight; the real-process probe now runs a listening application with a client waiting during shutdown',
     'C06-1': 'earlier round', 'C06-2': 'earlier round',
 }
 
@@ -47,7 +50,7 @@ def main():
     head = '''## 11. Seeded changes and reverse fixes: which check catches what
 
 %d breaking changes were made by fresh sub-agents in three rounds (2 per property, then a
-second pair for the nine render/links/purity properties), each agent given only the text of
+second pair for every property), each agent given only the text of
 one property and a scratch worktree under `/tmp`; each change was confirmed by me
 (`harness/confirm_seed.sh`: the agent's demonstration passes on the unchanged tree and
 fails with the change; the 81 tests still pass) and archived under `seeded/<id>/`.
